@@ -1,5 +1,33 @@
-"""Additional correspondence components that are not line-per-case runs of the two drivers (filled in below)."""
+"""Additional correspondence components that are not plain runs of the two drivers.
+
+fresh.*  (C15): a seeded sample of the cases is re-run on the implementation, each in its own fresh interpreter, and the
+trace is compared with the one obtained in the shared process (where hundreds of other schedules were built and
+iterated before and after).  A difference is a history dependence, with the case as the failing input."""
+import random
+import concurrent.futures as cf
+import runner
 
 
-def run(seed, tier):
-    return [], {}, {}, []
+def run(seed, tier, cases, impl):
+    rng = random.Random(seed * 7919 + 13)
+    pool = [l for l in cases if l.startswith("S stream.") or l.startswith("S hist.") or l.startswith("V fn.allocate")
+            or l.startswith("V fn.mixed_step") or l.startswith("V fn.optimal")]
+    k = 160 if tier == "thorough" else 48
+    sample = rng.sample(pool, min(k, len(pool)))
+    findings = []
+    xcases, ximpl, xmodel = [], {}, {}
+
+    def one(line):
+        code, out, err = runner.run_impl([line])
+        return line, runner.split_traces(out), code, err
+    with cf.ThreadPoolExecutor(max_workers=16) as ex:
+        for line, tr, code, err in ex.map(one, sample):
+            cid = line.split()[1]
+            fid = "fresh." + cid
+            xcases.append(line.split(" ", 2)[0] + " " + fid + " " + line.split(" ", 2)[2])
+            ximpl[fid] = tr.get(cid)
+            xmodel[fid] = impl.get(cid)      # "model" side of this component = the shared-process trace
+            if tr.get(cid) != impl.get(cid):
+                findings.append(dict(pid="C15", cid=fid, line=line, err="history_dependence", d8=False,
+                                     what="trace in a fresh interpreter differs from the trace in the shared process"))
+    return xcases, xmodel, ximpl, findings
